@@ -13,5 +13,6 @@ TECH = {
  "C10": "must-pass-through authorization gate (edge cut), who-may-call, sibling type-switch agreement (static analysis)",
  "C04": "untrusted-any sink analysis, nil-message and panic-site audits, who-may-close table, owner-goroutine confinement analysis over the call graph, non-blocking send audit (static analysis)",
  "C07": "non-blocking send audit + wait-for graph over goroutine roles (lock-order analysis transposed to channel rendezvous) + retry-bound guard obligations (static analysis)",
+ "C06": "send-after-close typestate over goroutine roles (join tables), close-site ordering (dominance), lock-region flag tests, WaitGroup pairing (static analysis)",
  "C03": "SSA edge-cut guard obligations, switch/case-set agreement, INVOCATION provenance (static analysis)",
 }
